@@ -62,6 +62,9 @@ class Interp(object):
         self.overrides = {}       # fn path -> python callable(interp, st, args) -> (ret, st)
         self.static_cells = {}
         self.firstset_of = {}
+        self.late_join = set()    # functions whose loop-free branches are joined only at the function exit (refinement)
+        self._nz_depth = 0
+        self.firstset_bv = {}     # source bits (with positions) -> the BV of its lowest set bit
         self.watch = {}
         self.cur_pc = ()
         self.cur_fn = None
@@ -145,6 +148,10 @@ class Interp(object):
         if not pc:
             return None
         nb = B.bnot(bit)
+        if self._nz_depth < 2:
+            X = self._nz_atom(bit)
+            if X is not None and self._nz_from_pc(X, pc):
+                return True
         L = set()
         for c in pc:
             if c is bit:
@@ -172,6 +179,35 @@ class Interp(object):
                 return False
         return None
 
+    @staticmethod
+    def _nz_atom(bit):
+        if bit.kind == 's' and len(bit.sup) == 1 and bit.sup[0][0] == '@' and bit.tt == (0, 1):
+            at = B.ATOMS[bit.sup[0][1]]
+            if at.kind == 'nz' and isinstance(at.payload, BV):
+                return at
+        return None
+
+    def _nz_from_pc(self, X, pc):
+        """`X != 0` follows from a known `Y != 0` when every bit of Y (or of its lowest-set-bit form, which is non-zero exactly
+        when Y is) either implies the same bit of X or is false under the path condition: some bit of Y is set, it is not one of
+        the false ones, so the corresponding bit of X is set."""
+        xb = X.payload.bits
+        self._nz_depth += 1
+        try:
+            for c in pc:
+                Y = self._nz_atom(c)
+                if Y is None or Y is X or Y.payload.w != X.payload.w:
+                    continue
+                fs = self.firstset_bv.get(tuple((i, id(b)) for i, b in enumerate(Y.payload.bits) if b is not C0))
+                for cand in (Y.payload, fs):
+                    if cand is None:
+                        continue
+                    if all(y is C0 or y is x or self.implies(y, x) or self.decide(y, pc) is False for y, x in zip(cand.bits, xb)):
+                        return True
+        finally:
+            self._nz_depth -= 1
+        return False
+
     # ------------------------------------------------------------------ merging
     def merge(self, c, a, b):
         """value of `if c then a else b`"""
@@ -196,6 +232,12 @@ class Interp(object):
         if ta is HF or tb is HF:
             ha, hb = self.as_hf(a), self.as_hf(b)
             if ha is not None and hb is not None:
+                # terms the two sides share (same symbol under the same gate) are unconditional in the merged value:
+                # ite(c, k ^ x, k ^ y) = k ^ ite(c, x, y)
+                common = ha.terms & hb.terms
+                if common:
+                    ha2, hb2 = HF(ha.terms - common), HF(hb.terms - common)
+                    return self.norm_hf(HF(list(common) + list(ha2.gate(c).terms) + list(hb2.gate(B.bnot(c)).terms)))
                 return self.norm_hf(ha.gate(c).xor(hb.gate(B.bnot(c))))
         if ta is Struct and tb is Struct and a.ty == b.ty and len(a.fields) == len(b.fields):
             return Struct(a.ty, [self.merge(c, x, y) if isinstance(x, V) else x
@@ -716,11 +758,11 @@ class Interp(object):
                 out.append(C0)
             else:
                 D = set(B.rawvars(x)) | lower_deps
-                M = set(B.must(x)) | lower_zero_lits
+                M = set(B.mustx(x)) | lower_zero_lits      # the lowest-set-bit at i implies bit i itself
                 if not lower_deps:
                     out.append(x)
                 else:
-                    out.append(B._dep(D, M, ()))
+                    out.append(B._dep(D, M, (), keep=(B.selflit(x),)))
             if x is C1:
                 out.extend([C0] * (w - i - 1))
                 break
@@ -733,6 +775,7 @@ class Interp(object):
                     lower_zero_lits.add((x.sup[0], x.tt != (0, 1)))
         r = BV(out[:w])
         self.firstset_of[tuple(id(b) for b in r.bits if b is not C0)] = bv
+        self.firstset_bv[tuple((i, id(b)) for i, b in enumerate(bv.bits) if b is not C0)] = r
         return r
 
     def unop(self, op, a):
@@ -1689,6 +1732,9 @@ class Interp(object):
             join = EXIT
         inner, loops = self.loopinfo(fr.fn)
         h = inner.get(bb)
+        if h is None and fr.fname in self.late_join:
+            # path-sensitive refinement of one function: branches outside loops are followed separately to the function's exit
+            return EXIT
         if h is not None and h != bb and (join == EXIT or join not in loops[h]):
             return h
         return join
